@@ -956,6 +956,13 @@ func ruleC11ReadErrors(p *Prog, a *Anchors, r *Report) {
 			}
 		}
 	}
+	isRead := func(cal *ssa.Function) bool {
+		name := p.extName(cal)
+		return name == "io.ReadAll" || name == "os.ReadFile" || name == "io/ioutil.ReadAll" || resolver[cal]
+	}
+	// a package helper that does the read and hands its error back as its own error result (readAndClose): the callers
+	// of the helper are where the error has to be looked at, as it was before the helper was extracted
+	forwards := u6ReadErrForwarders(p, a, isRead)
 	n := 0
 	for _, f := range p.inPkgFuncsSorted(p.allFuncSet()) {
 		if implementsLoader(p, a, f) {
@@ -970,7 +977,7 @@ func ruleC11ReadErrors(p *Prog, a *Anchors, r *Report) {
 				}
 				cal := c.Common().StaticCallee()
 				name := p.extName(cal)
-				if !(name == "io.ReadAll" || name == "os.ReadFile" || name == "io/ioutil.ReadAll" || resolver[cal]) {
+				if !isRead(cal) && !forwards[cal] {
 					continue
 				}
 				tup, isT := c.Type().(*types.Tuple)
